@@ -34,7 +34,10 @@ pub fn enumerate(prop: &str, tier: &str, f: &mut dyn FnMut(Case)) {
             crate::gen3::arith(lv, f);
             crate::gen_scale::builtins(lv, "arith", f);
         }
-        "C14" => crate::gen3::cmp(lv, f),
+        "C14" => {
+            crate::gen3::cmp(lv, f);
+            crate::gen_scale::cmp(lv, f);
+        }
         "C16" => {
             crate::gen3::append(lv, f);
             crate::gen_scale::builtins(lv, "append", f);
